@@ -80,7 +80,7 @@ def main(argv=None):
 
     seed = int(os.environ.get('VERIF_SEED', '0') or 0)
     if args.cmd == 'check':
-        tier = os.environ.get('VERIF_TIER') or args.tier or 'quick'
+        tier = args.tier or os.environ.get('VERIF_TIER') or 'quick'
         if tier not in ('quick', 'thorough'):
             tier = 'quick'
         if args.pid == 'all':
